@@ -35,6 +35,7 @@ pub fn bvhow_strategy(positions_weight: u32) -> BoxedStrategy<BvHow> {
         2 => any::<u8>().prop_map(BvHow::BoolsLoose),
         positions_weight => any::<u8>().prop_map(BvHow::PosLoose),
         1 => any::<u8>().prop_map(BvHow::ExtendPieces),
+        2 => Just(BvHow::ZerosThenSet),
     ]
     .boxed()
 }
@@ -128,13 +129,16 @@ impl Prop for BitsProp {
     }
     fn builds(&self, _tier: Tier) -> Vec<&'static str> {
         // the crate feature `prefetch` must not matter for any answer: a smaller run without it
-        // `asan`: generated cases under AddressSanitizer
-        vec!["fast", "checked", "noprefetch", "asan"]
+        // `asan`: generated cases under AddressSanitizer; `native`: `-C target-cpu=native`
+        vec!["fast", "checked", "noprefetch", "asan", "native"]
     }
     fn cases(&self, tier: Tier, build: &str) -> u32 {
         match (self.id, tier, build) {
             ("C06", Tier::Quick, "fast") => 40_000,
-            ("C06", Tier::Quick, "noprefetch") => 6_000,
+            ("C06", Tier::Quick, "noprefetch") | ("C06", Tier::Quick, "native") => 6_000,
+            ("C06", Tier::Thorough, "native") => 20_000,
+            (_, Tier::Quick, "native") => 1_600,
+            (_, Tier::Thorough, "native") => 6_000,
             ("C06", Tier::Quick, "asan") => 3_000,
             ("C06", Tier::Thorough, "asan") => 15_000,
             (_, Tier::Quick, "asan") => 800,
